@@ -12,13 +12,15 @@
     item against the stateful model.
 """
 
+import hashlib
 import os
-import random
 import signal
+import sys
 import tempfile
+import types
 
 from .. import tlc, tlaval
-from ..common import CPUS, MachineryError, chunks, pmap
+from ..common import CPUS, MachineryError, canon, pmap
 
 ENV_SIGS = ["a", "b", "c", "d", "e", "f"]
 ENV_CATS = ["C", "D"]
@@ -38,13 +40,14 @@ CONSTANTS
   CP <- MC_CP
   SepCP <- MC_SepCP
 INVARIANT RoundTrip
+INVARIANT EquivSane
 INVARIANT FileDenotes
 INVARIANT SuperiorsTransitive
 INVARIANT AliasIsInlining
 INVARIANT ConstructiveIsIllFormed
 INVARIANT MultiplierOnlyScales
 INVARIANT SeparatorsIrrelevant
-INVARIANT VocabularyClassified
+INVARIANT InVocabulary
 %(extra)s"""
 
 VOCAB_QUICK = ["RULE", "CATEGORY", "CUTOFF", "CONDITIONS", "EXTENDERS", "DEFINE", "SUPERIORS", "(", ")", ",", "and", "or",
@@ -170,16 +173,16 @@ def _parse_case(case: dict, texts: list, directory: str):
     via = case["via"]
     if via == "parser":
         return rp.Parser(texts[0], sigs, cats, multipliers=_multipliers(case["mult"])).rules
-    if via == "parser_chain":
+    if via == "chain":
         rules, aliases = [], {}
         for text in texts:
             parser = rp.Parser(text, sigs, cats, rules, aliases, _multipliers(case["mult"]))
             rules, aliases = parser.rules, parser.aliases
         return rules
     paths = _write_files(texts, directory)
-    if via == "create_rules":
+    if via == "files":
         return cp.create_rules(paths, sigs, cats, _multipliers(case["mult"]))
-    if via == "from_files":
+    if via == "ruleset":
         sig_file, seeds, filter_file = _signature_files(directory)
         return list(cp.Ruleset.from_files(sig_file, seeds, paths, cats, filter_file, "verif",
                                           multipliers=_multipliers(case["mult"])).rules)
@@ -218,14 +221,6 @@ def _lex_event(ident: int, text: str) -> dict:
     from antismash.common.hmm_rule_parser import rule_parser as rp
     res = guarded(lambda: [[ord(ch) for ch in token.token_text] for token in rp.Tokeniser(text.expandtabs()).tokens], [[-1]])
     return {"id": ident, "op": "lex", "chars": [ord(ch) for ch in text.expandtabs()], "toks": res["v"]}
-
-
-def _observe_many(cases):
-    from ..common import import_repo
-    import_repo()
-    with tempfile.TemporaryDirectory(prefix="c02_") as directory:
-        return [_lex_event(case["id"], case["text"]) if case.get("op") == "lex" else _observe(case, directory)
-                for case in cases]
 
 
 # ---- the shipped rule files (trace direction) ---------------------------------------------------
@@ -267,32 +262,133 @@ def _shipped_events(first_id: int):
                                   for tok in aliases[item[1].token_text]]
             events.append(event)
             info[ident] = {"file": os.path.basename(path), "item": f"{item[0].token_text} {item[1].token_text}"}
+    # the production path: get_ruleset parses with unit multipliers and scales once
+    for mult in ([3, 2, 1, 2], [1, 1, 5, 2]):
+        options = types.SimpleNamespace(hmmdetection_strictness="loose", hmmdetection_limit_to_rules=[],
+                                        hmmdetection_limit_to_categories=[], taxon="fungi",
+                                        hmmdetection_fungal_cutoff_multiplier=mult[0] / mult[1],
+                                        hmmdetection_fungal_neighbourhood_multiplier=mult[2] / mult[3])
+        ident = first_id + len(events)
+        res = guarded(lambda: [{"name": rule.name, "cutoff": _whole(rule.cutoff), "nbhd": _whole(rule.neighbourhood)}
+                               for rule in hmm_detection.get_ruleset(options).rules], [])
+        if res["exc"]:
+            raise MachineryError(f"get_ruleset failed on the shipped rules: {res['exc']}")
+        events.append({"id": ident, "op": "scaled", "mult": mult, "rules": res["v"]})
+        info[ident] = {"file": "strict+relaxed+loose", "item": f"get_ruleset(fungi, multipliers {mult})"}
     return events, info, lex_lines
 
 
 # ---- cases from the model -----------------------------------------------------------------------
-def _parse_states(blocks):
-    out = []
-    for block in blocks:
-        start = block.index("case = ") + len("case = ")
-        end = block.index("\n/\\ ", start) if "\n/\\ " in block[start:] else len(block)
+# The dump is cut into byte ranges; a worker parses the states of its range, runs the real code on
+# them and returns the events.  A case is addressed as (range index, position within the range), so
+# that the description of a failing case can be rebuilt on demand instead of being kept for every case.
+RANGE_STRIDE = 100_000
+
+
+def _digest(case: dict) -> int:
+    return int(hashlib.sha1(canon([case["files"], case["mult"], case["sep"]]).encode()).hexdigest()[:8], 16)
+
+
+def _route(case: dict) -> str:
+    """ which public entry point parses the case (a function of the case only) """
+    if len(case["files"]) > 1:
+        return "files" if _digest(case) % 10 < 7 else "chain"
+    if case["kind"] in ("chain", "extras") and case["mult"] != [1, 1, 1, 1] and case["sep"] == 0:
+        return "ruleset"
+    return "parser"
+
+
+def _dump_ranges(dump_path: str, count: int) -> list:
+    """ byte ranges [start, end) of the dump, each starting at a "State " line """
+    size = os.path.getsize(dump_path)
+    marks = [0]
+    with open(dump_path, "rb") as handle:
+        for k in range(1, count):
+            handle.seek(size * k // count)
+            handle.readline()
+            while True:
+                pos = handle.tell()
+                line = handle.readline()
+                if not line or line.startswith(b"State "):
+                    break
+            if pos > marks[-1] and line:
+                marks.append(pos)
+    marks.append(size)
+    return [(marks[k], marks[k + 1]) for k in range(len(marks) - 1)]
+
+
+def _cases_of_range(dump_path: str, span: tuple) -> list:
+    with open(dump_path, "rb") as handle:
+        handle.seek(span[0])
+        text = handle.read(span[1] - span[0]).decode("utf-8")
+    cases = []
+    for block in text.split("State ")[1:]:
         stage = int(block[block.index("stage = ") + 8:].split()[0])
         if stage < 2:
             continue
-        case = tlaval.parse(block[start:end])
-        out.append({"stage": stage, "kind": case["kind"], "files": [list(f) for f in case["files"]],
-                    "mult": list(case["mult"]), "sep": case["sep"], "must": case["must"]})
-    return out
-
-
-def _load_cases(dump_path: str):
-    with open(dump_path, encoding="utf-8") as handle:
-        blocks = handle.read().split("\nState ")
-    blocks = [b for b in blocks if "case = " in b]
-    parts = pmap(_parse_states, chunks(blocks, CPUS * 2))
-    cases = [case for part in parts for case in part]
-    cases.sort(key=lambda c: (c["stage"], c["kind"], c["files"], c["mult"], c["sep"]))
+        start = block.index("case = ") + len("case = ")
+        rest = block.find("\n/\\ ", start)
+        value = tlaval.parse(block[start:rest if rest >= 0 else len(block)])
+        case = {"stage": stage, "kind": value["kind"], "files": [[sys.intern(tok) for tok in f] for f in value["files"]],
+                "mult": list(value["mult"]), "sep": value["sep"], "must": value["must"]}
+        case["via"] = _route(case)
+        cases.append(case)
     return cases
+
+
+def _work(job: tuple) -> dict:
+    """ one dump range: cases, observations, a sample of tokeniser events """
+    from ..common import import_repo
+    import_repo()
+    dump_path, index, span, lex_every = job
+    cases = _cases_of_range(dump_path, span)
+    if len(cases) >= RANGE_STRIDE // 2:
+        raise MachineryError("dump range holds too many cases for the id scheme")
+    events, kinds, nontrivial = [], {}, 0
+    with tempfile.TemporaryDirectory(prefix="c02_") as directory:
+        for pos, case in enumerate(cases):
+            case["id"] = index * RANGE_STRIDE + pos
+            events.append(_observe(case, directory))
+            kinds[case["kind"]] = kinds.get(case["kind"], 0) + 1
+            nontrivial += case["stage"] == 3 or case["kind"] != "ast"
+            if _digest(case) % lex_every == 0:
+                for number, tokens in enumerate(case["files"][:2]):
+                    events.append(_lex_event(index * RANGE_STRIDE + RANGE_STRIDE // 2 + 2 * pos + number,
+                                             join_tokens(tokens, case["sep"])))
+    sample = None
+    if cases:
+        sample = {"case": case_input(cases[0]), "call": call_text(cases[0]), "observed": events[0]["res"]}
+    return {"events": events, "kinds": kinds, "nontrivial": nontrivial, "cases": len(cases), "sample": sample}
+
+
+class _Describe(dict):
+    """ by_id for ctx.validate: rebuilds the description of a case (and observes it again) on demand """
+    def __init__(self, dump_path, spans):
+        super().__init__()
+        self.dump_path, self.spans, self.cached = dump_path, spans, (None, [])
+
+    def __bool__(self):
+        return True
+
+    def __contains__(self, ident):
+        return dict.__contains__(self, ident) or 0 <= ident // RANGE_STRIDE < len(self.spans)
+
+    def __getitem__(self, ident):
+        if dict.__contains__(self, ident):
+            return dict.__getitem__(self, ident)
+        index, pos = divmod(ident, RANGE_STRIDE)
+        if self.cached[0] != index:
+            self.cached = (index, _cases_of_range(self.dump_path, self.spans[index]))
+        cases = self.cached[1]
+        with tempfile.TemporaryDirectory(prefix="c02_") as directory:
+            if pos >= RANGE_STRIDE // 2:
+                case = cases[(pos - RANGE_STRIDE // 2) // 2]
+                text = join_tokens(case["files"][(pos - RANGE_STRIDE // 2) % 2], case["sep"])
+                return {"op": "lex", "input": {"text": text}, "call": f"Tokeniser({text!r}).tokens", "features": ["lex"],
+                        "sampled": False, "observed": {"toks": _lex_event(0, text)["toks"]}}
+            case = dict(cases[pos], id=ident)
+            return {"op": case["via"], "input": case_input(case), "call": call_text(case), "features": _features(case),
+                    "sampled": False, "observed": _observe(case, directory)["res"]}
 
 
 def _features(case: dict) -> list:
@@ -316,9 +412,9 @@ def call_text(case: dict) -> str:
     mult = f"Multipliers({case['mult'][0]}/{case['mult'][1]}, {case['mult'][2]}/{case['mult'][3]})"
     if case["via"] == "parser":
         return f"rule_parser.Parser({texts[0]!r}, {set(ENV_SIGS)}, {set(ENV_CATS)}, multipliers={mult}).rules"
-    if case["via"] == "parser_chain":
+    if case["via"] == "chain":
         return f"rule_parser.Parser(text, sigs, cats, rules, aliases, {mult}) for text in {texts!r} (rules/aliases carried over)"
-    if case["via"] == "create_rules":
+    if case["via"] == "files":
         return f"cluster_prediction.create_rules(<files holding {texts!r}>, {set(ENV_SIGS)}, {set(ENV_CATS)}, {mult})"
     return f"Ruleset.from_files(<signatures {ENV_SIGS}>, seeds, <files holding {texts!r}>, {set(ENV_CATS)}, filter, 'verif', multipliers={mult})"
 
@@ -334,97 +430,99 @@ def _wrapper() -> str:
             f"MC_CP == {tlaval.to_tla(table)}\nMC_SepCP == {tlaval.to_tla(seps)}\n====\n")
 
 
-def _assign_routes(cases, rng):
-    """ which public entry point parses the case """
-    for case in cases:
-        several = len(case["files"]) > 1
-        if several:
-            case["via"] = "create_rules" if rng.random() < 0.7 else "parser_chain"
-        elif case["kind"] in ("chain", "extras") and case["mult"] != [1, 1, 1, 1] and case["sep"] == 0:
-            case["via"] = "from_files"
-        else:
-            case["via"] = "parser"
-
-
 def _deep_stack():
     """ the tokeniser of the spec recurses once per character: TLC's threads need a deeper stack """
     if "-Xss" not in os.environ.get("JAVA_TOOL_OPTIONS", ""):
         os.environ["JAVA_TOOL_OPTIONS"] = (os.environ.get("JAVA_TOOL_OPTIONS", "") + " -Xss64m").strip()
 
 
+NEEDED_KINDS = ["ast", "chain", "alias", "extras", "delete", "replace", "duplicate", "swap", "truncate", "insert",
+                "unknown_profile", "extender_profile", "unknown_category", "duplicate_rule", "duplicate_alias",
+                "alias_name_clash", "alias_as_rule_name", "repeated_operand", "repeated_option", "missing_section",
+                "unbalanced_group", "no_positive", "superior_undefined", "superior_duplicated", "trailing_not", "empty_input"]
+
+
 def run(ctx):
     _deep_stack()
-    rng = random.Random(ctx.seed)
+    from ..common import import_repo
+    import_repo()
     if ctx.quick:
         params = {"leaves": 4, "styles": 0, "vocab": VOCAB_QUICK, "base": 0, "deep": 0}
     else:
-        params = {"leaves": 5, "styles": 1, "vocab": VOCAB_ALL, "base": 1, "deep": 400}
+        params = {"leaves": 5, "styles": 1, "vocab": VOCAB_ALL, "base": 1, "deep": 150}
     cfg = MC_CFG % dict(params, vocab=", ".join(tlaval.to_tla(v) for v in params["vocab"]), extra="")
-    mc = tlc.run("MC_RuleGrammar", cfg, ctx.workdir, dump=True, extra_files={"MC_RuleGrammar.tla": _wrapper()},
-                 timeout=3000, seed=ctx.seed)
-    ctx.model(mc, "RuleGrammar_MC: round trip, constructed states, alias = inlining, corruptions ill-formed")
-    cases = _load_cases(mc.dump_path)
-    kinds = {}
-    for case in cases:
-        kinds[case["kind"]] = kinds.get(case["kind"], 0) + 1
-    needed = ["ast", "chain", "alias", "extras", "delete", "replace", "duplicate", "swap", "truncate", "insert",
-              "unknown_profile", "unknown_profile_in_extenders", "unknown_category", "duplicate_rule", "duplicate_alias",
-              "alias_name_clash", "alias_as_rule_name", "repeated_operand", "repeated_minimum_option", "missing_section",
-              "unbalanced_group", "no_positive_requirement", "superior_undefined", "superior_duplicated", "trailing_not",
-              "empty_input"]
-    dead = [kind for kind in needed if not kinds.get(kind)]
+    wrapper = {"MC_RuleGrammar.tla": _wrapper()}
+    mc = tlc.run("MC_RuleGrammar", cfg, ctx.workdir, dump=True, extra_files=wrapper, timeout=3000, seed=ctx.seed)
+    ctx.model(mc, "RuleGrammar_MC: round trip, constructed states, alias = inlining, corruptions ill-formed, separators")
+    phases = {"model_s": ctx.timer.elapsed()}
+    # negative control: without the parentheses precedence requires, trees must not read back
+    neg_cfg = (MC_CFG % dict(leaves=3, styles=0, vocab='"a"', base=0, deep=0, extra="")).split("INVARIANT")[0]
+    neg = tlc.run("MC_RuleGrammar", neg_cfg + "INVARIANT ParenthesesNeverNeeded\n", ctx.workdir, extra_files=wrapper,
+                  timeout=600, tag="_neg", workers=2)
+    ctx.expect_violation(neg, "ParenthesesNeverNeeded", "RuleGrammar_MC without the needed parentheses (must be violated)")
+    phases["negative_control_s"] = ctx.timer.elapsed()
+
+    spans = _dump_ranges(mc.dump_path, max(CPUS * 2, os.path.getsize(mc.dump_path) // 6_000_000))
+    describe = _Describe(mc.dump_path, spans)
+    lex_every = 30 if ctx.quick else 100
+    kinds, total, validated = {}, 0, 0
+    group = CPUS * 4
+    for first in range(0, len(spans), group):
+        jobs = [(mc.dump_path, index, spans[index], lex_every) for index in range(first, min(first + group, len(spans)))]
+        events = []
+        for part in pmap(_work, jobs):
+            events.extend(part["events"])
+            total += part["cases"]
+            ctx.nontrivial_extra += part["nontrivial"]
+            for kind, count in part["kinds"].items():
+                kinds[kind] = kinds.get(kind, 0) + count
+            if part["sample"] and (not ctx.samples or len(ctx.samples) < 3 and first):
+                ctx.sample(part["sample"])
+        ctx.validate("RuleGrammar_Trace", events, describe)
+        validated += len(events)
+    phases["cases_observed_and_validated_s"] = ctx.timer.elapsed()
+    dead = [kind for kind in NEEDED_KINDS if not kinds.get(kind)]
     if dead:
         raise MachineryError(f"vacuous generator: no case of kind {dead}")
-    _assign_routes(cases, rng)
-    for idx, case in enumerate(cases):
-        case["id"] = idx
-    # tokeniser events: the text of a sample of cases
-    lex_cases = []
-    step = max(1, len(cases) // (400 if ctx.quick else 4000))
-    for case in cases[::step]:
-        for tokens in case["files"]:
-            lex_cases.append({"op": "lex", "id": len(cases) + len(lex_cases), "text": join_tokens(tokens, case["sep"])})
-    shipped, shipped_info, lines = _shipped_events(len(cases) + len(lex_cases) + 100000)
-    for line in lines:
-        lex_cases.append({"op": "lex", "id": len(cases) + len(lex_cases), "text": line})
-    events = [ev for part in pmap(_observe_many, chunks(cases + lex_cases, CPUS * 4)) for ev in part]
-    by_id = {}
-    for case in cases:
-        by_id[case["id"]] = {"op": case["via"], "input": case_input(case), "call": call_text(case),
-                             "features": _features(case), "sampled": False}
-        if case["stage"] == 3 or case["kind"] != "ast":
-            ctx.nontrivial_case(case["id"])
-    for case in lex_cases:
-        by_id[case["id"]] = {"op": "lex", "input": {"text": case["text"]}, "call": f"Tokeniser({case['text']!r}).tokens",
-                             "features": ["lex"], "sampled": False}
-    for event in events:
-        by_id[event["id"]]["observed"] = event["res"] if event["op"] == "parse" else {"toks": event["toks"]}
-    for ident, info in shipped_info.items():
-        by_id[ident] = {"op": "item", "input": info, "call": f"Parser(<{info['file']}>).rules_by_name / .aliases: {info['item']}",
-                        "features": ["shipped_rule_file"], "sampled": False, "observed": {}}
+
+    # trace direction: the shipped rule files, item by item, and their lines through the tokeniser
+    shipped, shipped_info, lines = _shipped_events(len(spans) * RANGE_STRIDE + RANGE_STRIDE)
     for event in shipped:
-        if event["op"] == "item":
-            by_id[event["id"]]["observed"] = event["obs"] if event["kind"] == "RULE" else {"alias": [t["s"] for t in event["alias"]]}
-    ctx.evaluations = len(events) + len(shipped)
-    ctx.validate("RuleGrammar_Trace", events, by_id)
-    ctx.validate("RuleGrammar_Trace", shipped, by_id, shards=1)
-    picks = [cases[0], cases[len(cases) // 2], cases[-1]]
-    observed = {ev["id"]: ev for ev in events}
-    for case in picks:
-        ctx.sample({"case": case_input(case), "call": call_text(case), "observed": observed[case["id"]]["res"]})
-    ctx.exhaustive = ctx.quick or params["deep"] == 0
+        info = shipped_info[event["id"]]
+        entry = {"op": event["op"], "input": info, "call": f"Parser(<{info['file']}>): {info['item']}",
+                 "features": ["shipped_rule_file"], "sampled": False, "observed": {}}
+        if event["op"] == "scaled":
+            entry["observed"] = {"rules": event["rules"][:5]}
+        elif event["op"] == "item":
+            entry["observed"] = event["obs"] if event["kind"] == "RULE" else {"alias": [t["s"] for t in event["alias"]]}
+        describe[event["id"]] = entry
+    ctx.validate("RuleGrammar_Trace", shipped, describe, shards=1)
+    line_events = []
+    for line in lines:
+        ident = len(spans) * RANGE_STRIDE + 2 * RANGE_STRIDE + len(line_events)
+        line_events.append(_lex_event(ident, line))
+        describe[ident] = {"op": "lex", "input": {"text": line}, "call": f"Tokeniser({line!r}).tokens", "features": ["lex"],
+                           "sampled": False, "observed": {"toks": line_events[-1]["toks"]}}
+    ctx.validate("RuleGrammar_Trace", line_events, describe)
+    ctx.sample({"shipped": shipped_info[shipped[1]["id"]], "observed": shipped[1]["obs"] if shipped[1]["kind"] == "RULE" else {}})
+    phases["shipped_files_s"] = ctx.timer.elapsed()
+    ctx.notes["phases_cumulative_wall"] = phases
+    ctx.evaluations = validated + len(shipped) + len(line_events)
+    ctx.exhaustive = params["deep"] == 0
     ctx.rule = ("TLC enumerates condition trees (all shapes of depth <= 2 over the listed leaf counts, every negation, leaf kinds "
-                "minscore/minimum/cds substituted), renders each in several parenthesisation styles and separator styles, builds "
-                "superiors chains over 1-3 files with multipliers, alias definitions with their inlined twins and rules with "
-                "optional sections, and derives from base cases every constructive ill-formedness class and every single-token "
-                "delete/duplicate/swap/replace/insert/truncate edit; each case is parsed by the real code; non-trivial = a "
-                "corrupted text, or a well-formed one with several rules, files, aliases or optional sections")
-    ctx.notes["case_kinds"] = kinds
-    ctx.notes["shipped_items"] = len(shipped) - 1
-    ctx.notes["lex_events"] = len(lex_cases)
+                "minscore/minimum/cds substituted; thorough adds sampled depth-3 trees), renders each in several parenthesisation "
+                "and separator styles, builds superiors chains over 1-3 files with multipliers, alias definitions with their "
+                "inlined twins and rules with optional sections, and derives from base cases every constructive ill-formedness "
+                "class and every single-token delete/duplicate/swap/replace/insert/truncate edit; each case is parsed by the real "
+                "code; non-trivial = a corrupted text, or a well-formed one with several rules, files, aliases or optional sections")
+    ctx.notes["case_kinds"] = dict(sorted(kinds.items()))
+    ctx.notes["cases"] = total
+    ctx.notes["shipped_items"] = sum(1 for event in shipped if event["op"] == "item")
+    ctx.notes["tokeniser_events"] = validated - total + len(line_events)
     ctx.assumptions += ["identifiers, integers and free text come from the closed vocabulary of RuleGrammar.tla (ASCII only)",
                         "DESCRIPTION / EXAMPLE free text is limited to a few fixed payloads",
-                        "multipliers are the exact binary fractions 1, 2, 3/2, 1/2, 5/2"]
+                        "multipliers are the exact binary fractions 1, 2, 3/2, 1/2, 5/2",
+                        "a parse that has not returned after 3 s is recorded as the observation 'Timeout'"]
 
 
 def replay(ctx, record):
